@@ -16,6 +16,8 @@ CLAIMED = {
          "DESIGN.md 5/C05", "declarative effect theorems (Coq) + full-snapshot correspondence on histories + documentation-level reference oracle"),
  "C18": ("freeze() is modelled as a dispatch over the list of replaced method names, which a fail-closed translator regenerates from the three freeze() bodies on every run (Gen/FreezeLists.v). Theorems: C18_lists_protect (reflective obligation over the regenerated lists: every table-writing method is replaced), C18_frozen_unchanged_{hg,di,sc} (for every op of the class, compound methods, deprecated aliases and in-place helpers included, and every argument, nodes/edges/memberships are unchanged), C18_frozen_blocks (direct mutators: XGIError, state untouched), C18_unfrozen_is_step. Correspondence: two-phase histories (edits, freeze(), more calls) against fstep/dfstep/sfstep; every public method found by introspection is probed unfrozen and frozen, so a new mutator that the model does not know breaks the correspondence.",
          "DESIGN.md 5/C18", "regenerated freeze lists + reflective obligation + dispatch theorems (Coq) + two-phase correspondence + method-surface probing"),
+ "C07": ("PARTIAL. Theorems: C07_duplicate_wellformed_partial (the network rebuilt by copy() / Hypergraph(H) satisfies the C01/C04 invariant for every source state, although copy() takes the id counter from the source), C07_both_fresh_ids, C07_pickle_equal (state dictionary round trip). Equality of the duplicate with its source and independence - structural in both directions and for nested attribute values reached through copy() - are NOT theorems (they need an aliasing model): they are decided on every run by the correspondence (model duplicate vs observed duplicate for copy() and Class(net), three classes) and by the oracle (equality, independence both ways, nested in-place mutations, fresh ids on both sides).",
+         "DESIGN.md 5/C07", "well-formedness/fresh-id theorems (Coq) + correspondence of duplicates + equality/independence/aliasing oracle"),
 }
 NOTE = ("trusted: Coq 8.16.1 kernel and vm_compute; no axioms (Print Assumptions: Closed under the global context); "
         "harness generators/serialiser/observation; CPython containers and numeric libraries are environment "
